@@ -196,6 +196,21 @@ example : (restoreInsert exG 0 2).2 = true ∧ (restoreInsert exG 0 2).1.conns 0
 example : (moveChan exG 1 2).2 = true ∧ (moveChan exG 1 2).1.conns 2 = [0, 5] ∧ (moveChan exG 1 2).1.conns 0 = [2] ∧
     (moveChan exG 1 2).1.conns 1 = [] := by decide
 
+/-- `Node.run_data_tree` (every `pull`) since 89b457b: the lists of every signal channel of the data tree and of
+every channel connected to one are saved, and assigned back in the `finally` block. WHATEVER graph the rewiring and
+the upstream run leave, if it differs from the saved one only on saved channels the assignment returns exactly the
+starting graph (order included); in particular for every sequence of connects / disconnects among saved channels —
+which is all a pull does in between (`pullAttempt`; the driver checks the frame condition on every replay) -/
+theorem C12_pull_restore (g : G) (keys : List Nat) :
+    (∀ g', SameStatic g g' → (∀ x, x ∉ keys → g'.conns x = g.conns x) → restoreSaved g' (savedKeys g keys) = g) ∧
+    (∀ ps, (pullAttempt g keys ps).1 = g) :=
+  ⟨fun g' hs hf => restoreSaved_framed g g' keys hs hf, fun ps => pullAttempt_eq g keys ps⟩
+
+example : (pullAttempt exG [0, 1, 5] [.disconnect 0 1, .connect 5 1, .disconnect 1 5]).2 = true ∧
+    (runPrims exG [.disconnect 0 1, .connect 5 1, .disconnect 1 5]).conns 1 = [] ∧
+    (pullAttempt exG [0, 1, 5] [.disconnect 0 1, .connect 5 1, .disconnect 1 5]).1.conns 1 = [0, 5] := by decide
+example : (pullAttempt exG [0, 1] [.disconnect 1 5]).2 = false := by decide
+
 /-! ## refusals per side, in the tree's order of half-removals -/
 
 /-- where no channel refuses (the tree as it is), the half-by-half transcription IS the atomic one
@@ -384,6 +399,7 @@ end PwVerif.C12
 #print axioms PwVerif.C12.C12_replace_refused_noop
 #print axioms PwVerif.C12.C12_restore_insert
 #print axioms PwVerif.C12.C12_load_in_place
+#print axioms PwVerif.C12.C12_pull_restore
 #print axioms PwVerif.C12.C12_flow_derivation
 #print axioms PwVerif.C12.C12_firing_order
 #print axioms PwVerif.C12.C12_ditch_without_disconnect_witness
